@@ -44,6 +44,7 @@ func C13(r *core.Run) {
 	rule138(r, fn)
 	rule1310(r, fn)
 	rule1311(r)
+	rule1312(r)
 }
 
 func resultFieldStores(r *core.Run, fn *ssa.Function, field string) []*ssa.Store {
@@ -413,6 +414,65 @@ func rule136(r *core.Run) {
 			r.Check(ok, "R13.6", key(fname(r, pf), f+" from "+q), r.P.Pos(pf.Pos()), "query parameter wired", "page."+f+" is not read from query parameter "+q)
 		}
 	}
+}
+
+// rule1312 — the page is reset only for an explicit empty key-marker.
+func rule1312(r *core.Run) {
+	r.Rule("R13.12", "in the listBucketVersions handler the parsed page (markers and max-keys) is replaced as a whole only on the side where the request carried a key-marker that is empty (HasKeyMarker true, KeyMarker == \"\" — S3 ignores the markers then): assuming HasKeyMarker is false, or assuming the key-marker non-empty, no store of a whole ListBucketVersionsPage over the parsed one is reachable after parsing — otherwise an ordinary first page loses its max-keys and a continued one its markers")
+	h := mustFunc(r, "gofakes3.(*GoFakeS3).listBucketVersions")
+	if h == nil {
+		return
+	}
+	name := fname(r, h)
+	var parse *ssa.Call
+	var resets []*ssa.Store
+	core.Instrs(h, func(in ssa.Instruction) {
+		switch x := in.(type) {
+		case *ssa.Call:
+			if r.P.CalleeName(x) == "gofakes3.listBucketVersionsPageFromQuery" {
+				parse = x
+			}
+		case *ssa.Store:
+			if r.P.TypeShort(x.Val.Type()) == "gofakes3.ListBucketVersionsPage" || strings.HasSuffix(x.Val.Type().String(), "gofakes3.ListBucketVersionsPage") {
+				resets = append(resets, x)
+			}
+		}
+	})
+	if parse == nil {
+		r.Violated("R13.12", key(name, "page parsed"), r.P.Pos(h.Pos()), "the handler no longer parses the page with listBucketVersionsPageFromQuery")
+		return
+	}
+	// whole-page stores that do not store the parsed page itself
+	var over []*ssa.Store
+	for _, st := range resets {
+		if ex, ok := st.Val.(*ssa.Extract); ok && ex.Tuple == ssa.Value(parse) {
+			continue
+		}
+		if core.Reaches(parse, st) {
+			over = append(over, st)
+		}
+	}
+	hasKM := map[ssa.Value]bool{}
+	core.Instrs(h, func(in ssa.Instruction) {
+		if ld, ok := in.(*ssa.UnOp); ok && isLoadOf(r, ld, "gofakes3.ListBucketVersionsPage.HasKeyMarker") {
+			hasKM[ld] = false
+		}
+	})
+	nonEmpty := nonEmptyTests(r, h, "gofakes3.ListBucketVersionsPage.KeyMarker")
+	bad := ""
+	for _, st := range over {
+		if len(hasKM) > 0 && core.ReachableTrackingFlags(parse, st, hasKM, nil) {
+			bad = "reachable for a request without key-marker (" + pos(r, st) + ")"
+		}
+		if len(nonEmpty) > 0 && core.ReachableTrackingFlags(parse, st, nonEmpty, nil) {
+			bad = "reachable for a request with a non-empty key-marker (" + pos(r, st) + ")"
+		}
+		if len(hasKM) == 0 || len(nonEmpty) == 0 {
+			bad = "not guarded by tests of HasKeyMarker and of the key-marker's emptiness (" + pos(r, st) + ")"
+		}
+	}
+	r.Check(bad == "", "R13.12", key(name, "page reset only for an empty key-marker"), pos(r, parse), sprintf("%d whole-page store(s) after parsing, each only under HasKeyMarker && KeyMarker == \"\"", len(over)),
+		"the parsed page is overwritten as a whole where the request did not carry an empty key-marker ("+bad+"): max-keys and the markers of an ordinary request are dropped — the first page is unbounded, or a continued listing starts over")
 }
 
 func rule137(r *core.Run, fn *ssa.Function) {
@@ -905,6 +965,45 @@ func rule1311(r *core.Run) {
 		if w.noneT {
 			if at := reach(assume, "true"); at != "" {
 				bad = "`return true` at " + at + " is reachable"
+			}
+		}
+		if bad == "" && w.eq && !w.seek {
+			// the current version is the last one of the key: when it is the marker, nothing of this
+			// key remains — every return on this side comes after the iterator was marked exhausted
+			// (done = true, or Close), with and without an archive iterator
+			isDone := func(y ssa.Instruction) bool {
+				switch x := y.(type) {
+				case *ssa.Store:
+					if fa, ok := x.Addr.(*ssa.FieldAddr); ok && r.P.FieldName(fa) == "s3mem.bucketObjectIterator.done" {
+						if c, isC := x.Val.(*ssa.Const); isC && c.Value != nil && c.Value.String() == "true" {
+							return true
+						}
+					}
+				case ssa.CallInstruction:
+					return r.P.CalleeName(x) == "s3mem.(*bucketObjectIterator).Close"
+				}
+				return false
+			}
+			for _, iterNil := range []bool{false, true} {
+				as := map[ssa.Value]bool{}
+				for k, v := range assume {
+					as[k] = v
+				}
+				for k := range nonNil {
+					b := k.(*ssa.BinOp)
+					other := b.X
+					if core.IsNilConst(b.X) {
+						other = b.Y
+					}
+					if isLoadOf(r, core.Forward(other), "s3mem.bucketObjectIterator.iter") {
+						as[k] = (b.Op == token.NEQ) != iterNil
+					}
+				}
+				for _, ret := range rets {
+					if core.ReachableTrackingFlags(nil, ret, as, isDone) {
+						bad = sprintf("the return at %s is reached (archive iterator nil: %v) without the iterator having been marked exhausted: the next Next() yields the marker's own version again", pos(r, ret), iterNil)
+					}
+				}
 			}
 		}
 		r.Check(bad == "", "R13.11", key(name, w.label), p0, "answer follows the two lookups",
